@@ -7,6 +7,7 @@ Unknown constructs default to ask. Decisions bubble up (deny > ask > allow).
 
 from __future__ import annotations
 
+import re
 from dataclasses import dataclass, field
 from pathlib import Path
 from typing import Literal
@@ -89,6 +90,16 @@ def _analyze_sequence(
     return decisions
 
 
+# NAME=, NAME+=, NAME[sub]= and NAME[sub]+= with NAME an identifier: the only
+# words bash treats as assignments before a command name.
+_ASSIGNMENT_WORD = re.compile(r"[A-Za-z_][A-Za-z0-9_]*(\[[^\]]*\])?\+?=")
+
+
+def _is_assignment_word(word: str) -> bool:
+    """True if word is a variable assignment prefix rather than a command name."""
+    return _ASSIGNMENT_WORD.match(word) is not None
+
+
 def _changes_directory(node) -> bool:
     """True if running node may leave the shell in a directory we do not track.
 
@@ -99,7 +110,7 @@ def _changes_directory(node) -> bool:
     if kind == "command":
         words = [_get_word_value(w) for w in getattr(node, "words", None) or []]
         i = 0
-        while i < len(words) and "=" in words[i] and not words[i].startswith("-"):
+        while i < len(words) and _is_assignment_word(words[i]):
             i += 1
         return i < len(words) and words[i] in ("cd", "pushd", "popd")
     if kind in ("subshell", "cmdsub", "procsub", "word", "redirect", "heredoc"):
@@ -293,11 +304,7 @@ def _analyze_command(
     words = [_get_word_value(w) for w in node.words]
     # Skip env var assignments to find base command
     base_idx = 0
-    while (
-        base_idx < len(words)
-        and "=" in words[base_idx]
-        and not words[base_idx].startswith("-")
-    ):
+    while base_idx < len(words) and _is_assignment_word(words[base_idx]):
         base_idx += 1
     base = words[base_idx] if base_idx < len(words) else ""
     has_handler = get_handler(base) is not None
@@ -507,7 +514,7 @@ def _analyze_simple_command(
 
     # Skip leading environment variable assignments (FOO=bar)
     i = 0
-    while i < len(words) and "=" in words[i] and not words[i].startswith("-"):
+    while i < len(words) and _is_assignment_word(words[i]):
         i += 1
 
     if i >= len(words):
